@@ -345,7 +345,7 @@ def gen_request_case(seed, i, engine):
             lines.append("get %s %d" % (hx(k), rev))
         elif x < 0.85:
             k2 = hostile_key(r)
-            lines.append("list %s %s %d %d" % (hx(k), hx(k2), rev, r.choice([0, 1, 2 ** 31, 2 ** 62])))
+            lines.append("list %s %s %d %d" % (hx(k), hx(k2), rev, r.choice([0, 1, 2 ** 31, 2 ** 62, -1, -1888, -(2 ** 63), 2 ** 63 - 1, 2 ** 63 - 2])))
         elif x < 0.93:
             lines.append("count %s %s" % (hx(k), hx(hostile_key(r))))
         else:
@@ -393,6 +393,26 @@ def request_oracle(case):
     return None
 
 
+def check_burst(rep, tier, glob):
+    """concurrent FIRST emission of a metric name (several request goroutines at once after start-up): the client's
+    get-or-create must not register the vector twice (the Prometheus registry panics on a duplicate)"""
+    rounds = 150 if tier == "quick" else 1500
+    lines = ["cfg global=%s" % (",".join(glob) or "-")]
+    for kind in ("counter", "gauge", "histogram"):
+        lines.append("burst %s c20.burst.%s m,n 8 %d" % (kind, kind, rounds))
+    out = core.run_impl("metrics", lines, timeout=300)
+    c = _case(lines, out, ["cfg ok"] + ["burst %s panics=0 errs=0" % k for k in ("counter", "gauge", "histogram")])
+    rep.count_case(c)
+    for ln, o in zip(lines[1:], out[1:] + ["<missing>"] * 3):
+        if "panics=0 errs=0" not in o:
+            p = core.write_replay("C20", "metric-first-use-race", case=c,
+                                  text="# oracle: concurrent first emission of one metric name panicked inside the metrics client: `%s` -> `%s`" % (ln, o))
+            rep.violation(p)
+            return True
+    rep.cov.setdefault("metrics", {})["first_use_bursts"] = 3 * rounds
+    return False
+
+
 def check_requests(rep, tier, seed):
     engines = ["memkv", "badger", "tikv"]
     n = 30 if tier == "quick" else 900
@@ -415,5 +435,8 @@ def check_requests(rep, tier, seed):
 
 def check(rep, tier, seed):
     if check_metrics(rep, tier, seed):
+        return True
+    tbl = parse_table()
+    if check_burst(rep, tier, tbl["globals"][0] if tbl["globals"] else []):
         return True
     return check_requests(rep, tier, seed)
